@@ -27,6 +27,14 @@ Binding
      Included: generic MDASequential([first MDA with its own tolerance 1e-2, tight second MDA]) judged with
      the tolerance of the SEQUENCE, and MDAChain with inner_mda_settings given as a settings MODEL or a
      dictionary, un-accelerated inner MDAs needing more than the default 20 iterations (tolerance 1e-12).
+ Dimensions that are not part of the mathematical system, and on which the specification therefore demands
+ the SAME behaviour (both bindings): the TYPE declared for the coupling data (integer-typed arrays in the
+ grammars wherever MDA.tla says every value is an integer: IntegralOrbit, invariant Integral) and harness
+ disciplines that fill and return the same pre-allocated output array at every execution.
+ QUIET instances (one discipline sees x, zero start: seeds >= 100 of the generator) give first residuals that
+ vanish exactly on some resolved variables only (StalledStarts, printed by TLC per instance): the per-variable
+ and per-component scalings are driven through their zero-reference rule there, in a first and in a second
+ execution of the same object (the witness StalledRef is counted on the traces by MDATrace).
 """
 from __future__ import annotations
 
@@ -43,7 +51,8 @@ from . import c06_disc as D
 SCALING = {"no": "NO_SCALING", "init": "INITIAL_RESIDUAL_NORM", "ncpl": "N_COUPLING_VARIABLES",
            "sub": "INITIAL_SUBRESIDUAL_NORM", "comp": "INITIAL_RESIDUAL_COMPONENT",
            "scomp": "SCALED_INITIAL_RESIDUAL_COMPONENT"}
-INVS = ["TypeOK", "Budget", "NilExact", "NilStop", "APriori", "APost", "SeqHandOver", "ChainEqualsMonolithic"]
+INVS = ["TypeOK", "Budget", "NilExact", "NilStop", "APriori", "APost", "SeqHandOver", "ChainEqualsMonolithic",
+        "Integral"]
 RES = "MDA residuals norm"
 
 
@@ -74,7 +83,7 @@ def build_mda(inst, cfg, *, log=None):
     from gemseo.mda.mda_chain import MDAChain
     from gemseo.mda.sequential_mda import MDASequential
 
-    ds = D.make_disciplines(inst, log)
+    ds = D.make_disciplines(inst, log, dtype=cfg.get("dtype", "float"), reuse=bool(cfg.get("reuse")))
     ds = [ds[i - 1] for i in cfg["ord"]]
     tol = 0.0 if cfg["t"] < 0 else 2.0 ** (-cfg["t"])
     base = dict(tolerance=tol, max_mda_iter=cfg["maxit"], warm_start=bool(cfg["warm"]))
@@ -107,7 +116,11 @@ def solvers_of(mda):
 
 def trace_sig(inst, cfg, dw, **more):
     return dict({"alg": cfg["alg"], "w": cfg["w"], "scal": cfg["scal"], "warm": cfg["warm"], "fam": inst.fam,
-                 "gs_delayed_weak": cfg["alg"] == "GS" and tuple(cfg["ord"]) in dw}, **more)
+                 "gs_delayed_weak": cfg["alg"] == "GS" and tuple(cfg["ord"]) in dw,
+                 "dtype": cfg.get("dtype", "float"), "reuse": bool(cfg.get("reuse")),
+                 # (finding D0604) an iteration loop entered on data that ARE the disciplines' output arrays:
+                 # after Gauss-Seidel's initial sweep, or after the previous MDA of a sequence
+                 "loop_starts_on_discipline_outputs": cfg["alg"] in ("GS", "CGS", "SGS")}, **more)
 
 
 def record_trace(ck, tid, inst, cfg, dw):
@@ -141,10 +154,31 @@ def record_trace(ck, tid, inst, cfg, dw):
             mlog.append([k, bool(k > 0 and float(m.normed_residual) <= float(m.settings.tolerance))])
         events.append({"ev": "end", "run": run, "log": mlog,
                        "y": [D.dyadic_small(v) for v in D.coupling_vector(inst, out)]})
-    return {"id": tid, "inst": inst.json(), "cfg": cfg, "events": events, "_sig": sig}
+    # the flavour of the disciplines travels beside the settings of the MDA (cfg is the record of MDA.tla)
+    return {"id": tid, "inst": inst.json(), "cfg": {k: v for k, v in cfg.items() if k not in FLAVOUR},
+            "dtype": cfg.get("dtype", "float"), "reuse": bool(cfg.get("reuse")), "events": events, "_sig": sig,
+            "_cfg": cfg}
 
 
-def trace_cfgs(rnd, inst, env, n, dw=(), thorough=False):
+FLAVOUR = ("dtype", "reuse")
+
+
+def flavour(rnd, inst, cfg):
+    """The flavour of the harness disciplines for a configuration: integer-typed couplings where MDA.tla
+    admits them (IntegralOrbit: nilpotent family, no relaxation - MDATrace refuses the trace otherwise), a
+    re-used output array anywhere but in a sequence that ends with a Jacobi stage: entered on data that ARE
+    the disciplines' output arrays, the first sweep of that stage reads the values the disciplines executed
+    before have just written (a Gauss-Seidel-like sweep) - the property does not forbid it (the result is
+    judged by the class x setting replay, MDASequential[...>MDAJacobi] with re-used arrays included), only the
+    exact-iterate binding of MDATrace would."""
+    if inst.fam == "nil" and cfg["w"] == 2 and rnd.random() < 0.5:
+        cfg["dtype"] = "int"
+    if cfg["alg"] != "SJ" and rnd.random() < 0.3:
+        cfg["reuse"] = True
+    return cfg
+
+
+def trace_cfgs(rnd, inst, env, n, dw=(), thorough=False, stalled=()):
     """n configurations inside the exactness envelope TLC printed for the instance (dw: the listing
     orders in which a Gauss-Seidel reads a weak coupling before it is produced - always visited, with
     several tolerances, so that the stop decisions on the resolved variables are exercised there)."""
@@ -156,6 +190,19 @@ def trace_cfgs(rnd, inst, env, n, dw=(), thorough=False):
             for t, scal in ((-1, "no"), (2, "no"), (4, "ncpl"))[:(3 if j < 2 else 1) if thorough else 1]:
                 out.append({"alg": "GS", "w": 2, "ord": list(order), "t": t, "maxit": mm, "scal": scal,
                             "warm": False, "runs": 1, "a1": "J", "t1": 1, "m1": 1})
+    # stalled starts (TLC: the first residual vanishes on some resolved variable only): the scalings whose
+    # reference is taken per variable / per component, in a first and a second execution of the object
+    for j, (a, order) in enumerate(sorted(stalled)):
+        if j >= (4 if thorough else 2) * (1 if a == "J" else 2):
+            continue
+        for scal, alg in (("sub", a), ("comp", a), ("sub", "C" + a), ("sub", "S" + a))[:4 if thorough or j == 0 else 1]:
+            two = alg in ("J", "GS") and inst.xs[0] != inst.xs[1]
+            warm = two and rnd.random() < 0.5
+            mm = int(env[alg][1][1 if warm else 0])
+            if mm < 1:
+                continue
+            out.append({"alg": alg, "w": 2, "ord": list(order), "t": rnd.choice([4, 8, -1]), "maxit": min(mm, 6),
+                        "scal": scal, "warm": bool(warm), "runs": 2 if two else 1, "a1": a, "t1": 1, "m1": 1})
     n += len(out)
     for _ in range(4 * n):
         if len(out) >= n:
@@ -178,7 +225,7 @@ def trace_cfgs(rnd, inst, env, n, dw=(), thorough=False):
             cfg.update(a1=rnd.choice(["J", "GS"]), t1=rnd.choice([1, 2, 3]), m1=rnd.randint(1, maxit),
                        t=rnd.choice([-1, 4, 6, 8, 12]))
         out.append(cfg)
-    return out
+    return [flavour(rnd, inst, cfg) for cfg in out]
 
 
 def validate_traces(ck, traces, base_consts):
@@ -191,6 +238,12 @@ def validate_traces(ck, traces, base_consts):
     r = ck.tlc("MDATrace", cfg, workers=1, timeout=900, env={"TRACE_FILE": str(path)}, coverage=True,
                require_actions=("TExec", "TSingle", "TEnd", "TSilent"))
     verdicts = {v[1]: (int(v[2]), int(v[3])) for v in r.printed() if v and v[0] == "TRACE"}
+    for v in r.printed():
+        if v and v[0] == "TRACE" and int(v[4]) > 0:
+            t = next(t for t in traces if t["id"] == v[1])
+            key = f"{t['cfg']['scal']}/run{int(v[4])}"
+            ck.extra.setdefault("traces_tested_against_a_partly_zero_first_residual", {}).setdefault(key, 0)
+            ck.extra["traces_tested_against_a_partly_zero_first_residual"][key] += 1
     if len(verdicts) != len(traces):
         raise MachineryError(f"MDATrace judged {len(verdicts)} of {len(traces)} traces:\n{r.out[-1500:]}")
     for t in traces:
@@ -200,7 +253,7 @@ def validate_traces(ck, traces, base_consts):
             continue
         ev = t["events"][reached] if 0 <= reached < total else {"ev": "init"}
         nsweep = sum(1 for e in t["events"][:reached] if e["ev"] == "exec") // len(t["inst"]["sz"])
-        c = t["cfg"]
+        c = t["_cfg"]
         ck.violation("TraceConformance",
                      dict(t["_sig"], event=ev["ev"], sweep=nsweep,
                           run=sum(1 for e in t["events"][:reached] if e["ev"] == "end") + 1),
@@ -238,7 +291,8 @@ def build_class(inst, conf):
     from gemseo.mda.factory import MDAFactory
 
     cls, kind, inner = conf["cls"], conf["kind"], conf["inner"]
-    ds = D.make_disciplines(inst, split=bool(conf.get("split")))
+    ds = D.make_disciplines(inst, split=bool(conf.get("split")), dtype=conf.get("dtype", "float"),
+                            reuse=bool(conf.get("reuse")))
     ds = [ds[i - 1] for i in conf["ord"]]
     base = dict(tolerance=10.0 ** (-conf["p"]), max_mda_iter=conf["maxit"], warm_start=conf["warm"])
     acc, relax = conf["acc"], conf["relax"]
@@ -276,7 +330,10 @@ def conf_sig(inst, conf, **more):
     return dict({"cls": name, "solver": solver, "form": conf.get("form", "dict"), "acc": conf["acc"], "relax": conf["relax"],
                  "relax_is_one": conf["relax"] == 1.0, "scal": conf["scal"], "warm": conf["warm"],
                  "fam": inst.fam, "gs_delayed_weak": bool(conf.get("gs_delayed_weak")),
-                 "split": bool(conf.get("split"))}, **more)
+                 "split": bool(conf.get("split")), "dtype": conf.get("dtype", "float"),
+                 "reuse": bool(conf.get("reuse")),
+                 "loop_starts_on_discipline_outputs": ("GaussSeidel" in name or "GSNewton" in name
+                                                       or conf["cls"] == "MDASequential")}, **more)
 
 
 def run_conf(ck, rid, inst, conf):
@@ -317,8 +374,22 @@ def run_conf(ck, rid, inst, conf):
         return None
     rho = D.reexecution_residual(inst, out, inst.xs[runs - 1], split)
     return {"id": rid, "inst": inst.json(), "kind": conf["kind"], "ord": conf["ord"], "scal": conf["scal"],
-            "p": conf["p"], "run": runs, "y": [D.big_dyadic(v) for v in y], "rho": [D.big_dyadic(v) for v in rho],
+            "p": conf["p"], "run": runs, "dtype": conf.get("dtype", "float"), "reuse": bool(conf.get("reuse")),
+            "plain": is_plain(conf), "y": [D.big_dyadic(v) for v in y], "rho": [D.big_dyadic(v) for v in rho],
             "_sig": sig, "_detail": detail}
+
+
+PLAIN = {"MDAJacobi", "MDAGaussSeidel"}
+
+
+def is_plain(conf):
+    """A fixed-point class (or a chain / sequence of them) without acceleration nor relaxation: the
+    algorithms J / GS / CJ / CGS / SJ / SGS of MDA.tla with w = 1."""
+    if conf["acc"] != "NoTransformation" or conf["relax"] != 1.0:
+        return False
+    if conf["cls"] in PLAIN:
+        return True
+    return conf["cls"] in ("MDAChain", "MDASequential") and bool(conf["inner"]) and set(conf["inner"].split(">")) <= PLAIN
 
 
 NEEDS_ALL_STRONG = {"MDANewtonRaphson", "MDAQuasiNewton", "MDAGSNewton", "MDASequential"}
@@ -326,9 +397,19 @@ NEEDS_ALL_STRONG = {"MDANewtonRaphson", "MDAQuasiNewton", "MDAGSNewton", "MDASeq
 
 def sample_confs(rnd, case, n, cover):
     """n configurations for an instance; `cover` = list of (class index, acc, relax) triples still to visit."""
-    inst, _, ngroups, dw, allstrong = case
+    inst, _, ngroups, dw, allstrong, stalled = case
     perms = list(itertools.permutations(range(1, inst.nd + 1)))
     out = []
+    # stalled starts: the classes that test a Jacobi-like / Gauss-Seidel residual with the scalings whose
+    # reference is taken per variable / per component (second execution included)
+    for a, order in sorted(stalled)[:2 if stalled and sorted(stalled)[0][0] == "J" else 1]:
+        for cls, inner in (("MDAJacobi", None), ("MDAChain", "MDAJacobi")) if a == "J" else (("MDAGaussSeidel", None),):
+            if cls == "MDAChain" and ngroups > 1:
+                continue
+            out.append({"cls": cls, "kind": a, "inner": inner, "acc": rnd.choice(["NoTransformation"] + ACCS),
+                        "relax": 1.0, "scal": rnd.choice(["sub", "sub", "comp", "scomp"]), "ord": list(order),
+                        "warm": rnd.random() < 0.5 and inst.xs[0] != inst.xs[1], "p": 10, "maxit": 200,
+                        "gs_delayed_weak": False, "form": "dict"})
     if inst.fam == "nil":
         # finite termination makes successive residuals coincide: the delta-based accelerations are
         # visited there at relaxation 1 (D0602, fixed, and D0603 were found on these)
@@ -336,6 +417,16 @@ def sample_confs(rnd, case, n, cover):
             order = rnd.choice(perms)
             out.append({"cls": "MDAJacobi", "kind": "J", "inner": None, "acc": acc, "relax": 1.0, "scal": "ncpl",
                         "ord": list(order), "warm": False, "p": 6, "maxit": 200, "gs_delayed_weak": False})
+        # integer-typed couplings (IntegralOrbit): a plain fixed-point class, chain or sequence
+        cls, kind, inner = rnd.choice([c for c in CLASSES
+                                       if is_plain({"cls": c[0], "inner": c[2], "acc": "NoTransformation", "relax": 1.0})])
+        if cls == "MDAChain" and ngroups > 1:
+            kind = "chain"
+        order = rnd.choice(perms)
+        out.append({"cls": cls, "kind": kind, "inner": inner, "acc": "NoTransformation", "relax": 1.0,
+                    "scal": rnd.choice(["no", "ncpl"] if kind in ("both", "chain") else list(SCALING)),
+                    "ord": list(order), "warm": rnd.random() < 0.3 and inst.xs[0] != inst.xs[1], "p": 10, "maxit": 200,
+                    "gs_delayed_weak": cls == "MDAGaussSeidel" and order in dw, "form": "dict", "dtype": "int"})
     else:
         # an MDAChain whose un-accelerated inner MDA needs more than the default 20 iterations for a tight
         # tolerance: max_mda_iter = 200 of the chain must reach the inner MDAs whether their settings are
@@ -383,6 +474,12 @@ def sample_confs(rnd, case, n, cover):
                     "ord": list(order), "warm": bool(warm), "p": rnd.choice([10, 10, 6]), "maxit": 200,
                     "gs_delayed_weak": cls == "MDAGaussSeidel" and order in dw,
                     "form": "model" if cls == "MDAChain" and inner != "MDAGSNewton" and rnd.random() < 0.5 else "dict"})
+    for conf in out:
+        # the flavour of the harness disciplines (not part of the system)
+        if inst.fam == "nil" and is_plain(conf) and rnd.random() < 0.5:
+            conf.setdefault("dtype", "int")
+        if rnd.random() < 0.3:
+            conf["reuse"] = True
     if D.private_self_couplings(inst):
         # the same system with one variable per component: a component read by its own discipline only,
         # inside a larger group, is a strong coupling of that group (every class must resolve it); the
@@ -390,7 +487,8 @@ def sample_confs(rnd, case, n, cover):
         # whose reference does not depend on how the components are grouped into variables
         for conf in list(out):
             if conf["acc"] == "NoTransformation" and conf["relax"] == 1.0 or conf["kind"] == "root":
-                out.append(dict(conf, split=True, scal=conf["scal"] if conf["scal"] in ("no", "ncpl", "init") else "no"))
+                out.append(dict(conf, split=True, dtype="float", reuse=False,
+                                scal=conf["scal"] if conf["scal"] in ("no", "ncpl", "init") else "no"))
         for ci, (cls, kind, inner) in enumerate(CLASSES):
             newton = (inner is None and cls in NEEDS_ALL_STRONG) or (cls == "MDASequential" and "Newton" in (inner or ""))
             if newton and not allstrong:
@@ -414,6 +512,12 @@ def judge_reports(ck, reports, base_consts):
                     # BigNat recursion on 600-bit numbers: a deeper thread stack than the JVM default
                     "JAVA_TOOL_OPTIONS": "-XX:+UseParallelGC -Xss16m -Xmx" + os.environ.get("VERIF_TLC_HEAP", "4g")})
     verdicts = {v[1]: v[2:5] for v in r.printed() if v and v[0] == "V"}
+    for v in r.printed():
+        if v and v[0] == "V" and v[5]:
+            rp = next(rp for rp in reports if rp["id"] == v[1])
+            key = f"{rp['scal']}/run{rp['run']}"
+            ck.extra.setdefault("reports_with_a_partly_zero_first_residual", {}).setdefault(key, 0)
+            ck.extra["reports_with_a_partly_zero_first_residual"][key] += 1
     if len(verdicts) != len(reports):
         raise MachineryError(f"MDAReport judged {len(verdicts)} of {len(reports)} reports:\n{r.out[-1500:]}")
     for rp in reports:
@@ -431,12 +535,12 @@ def judge_reports(ck, reports, base_consts):
 def run(ck: Check):
     rnd = random.Random(ck.seed)
     if ck.thorough:
-        profiles, seeds = (22, 12, 21, 11, 222, 121, 112), range(1, 41)
+        profiles, seeds = (22, 12, 21, 11, 222, 121, 112), list(range(1, 41)) + list(range(100, 116))
         ex = dict(ws=(1, 2, 3), tols=(99, 2, 6), maxits=(2, 4), scals=("no", "init", "ncpl", "sub", "comp"),
                   warm=(False, True), nruns=2)
         parts, selmod, n_traces, n_runs = 8, 96, 1500, 4000
     else:
-        profiles, seeds = (22, 12, 222), range(1, 17)
+        profiles, seeds = (22, 12, 222), list(range(1, 17)) + list(range(100, 106))
         ex = dict(ws=(1, 2), tols=(2, 6), maxits=(2,), scals=("no", "init", "comp"))
         parts, selmod, n_traces, n_runs = 1, 48, 200, 330
     seeds = list(seeds)
@@ -452,7 +556,8 @@ def run(ck: Check):
         sub = dict(base, seeds=seeds[part * chunk:(part + 1) * chunk])
         r = ck.tlc("MDA", consts(**sub, **ex, selmod=selmod, selres=(part % selmod,), emit=True) + spec,
                    workers=4, timeout=900, require_actions=acts + (("NewRun",) if ck.thorough else ()))
-        cases += [(D.Instance(v[1]), v[2], int(v[3]), frozenset(tuple(int(i) for i in o) for o in v[4]), bool(v[5]))
+        cases += [(D.Instance(v[1]), v[2], int(v[3]), frozenset(tuple(int(i) for i in o) for o in v[4]), bool(v[5]),
+                   frozenset((str(p[0]), tuple(int(i) for i in p[1])) for p in v[6]))
                   for v in r.printed() if v and v[0] == "CASE"]
     if not cases:
         raise MachineryError("MDA.tla printed no instance")
@@ -461,6 +566,10 @@ def run(ck: Check):
     ck.extra["instances_with_several_groups"] = sum(1 for c in cases if c[2] > 1)
     ck.extra["instances_with_delayed_weak_orders"] = sum(1 for c in cases if c[3])
     ck.extra["instances_with_private_self_coupling"] = sum(1 for c in cases if D.private_self_couplings(c[0]))
+    ck.extra["instances_with_a_stalled_start"] = {a: sum(1 for c in cases if any(p[0] == a for p in c[5]))
+                                                  for a in ("J", "GS")}
+    if not all(ck.extra["instances_with_a_stalled_start"].values()):
+        raise MachineryError("no instance whose first Jacobi / Gauss-Seidel residual vanishes on some variable only")
     if not ck.extra["instances_with_private_self_coupling"]:
         raise MachineryError("no instance with a private self-coupled component inside a larger group")
     # the rules of gauss_seidel.py as they were before fix faa2efe do NOT satisfy the specification's own
@@ -476,20 +585,36 @@ def run(ck: Check):
     # MDATrace / MDAReport take their instances from the JSON file: the generator constants are idle
     tconst = consts(fams=("nil",), profiles=(22,), seeds=(1,), emit=False)
     traces = []
+    tflav = {"float": 0, "float/reuse": 0, "int": 0, "int/reuse": 0}     # configurations driven, per flavour
     per = max(1, -(-n_traces // len(cases)))
     for case in cases:
-        inst, env, _, dw, _ = case
-        for cfg in trace_cfgs(rnd, inst, env, per, dw, ck.thorough):
+        inst, env, _, dw, _, stalled = case
+        for cfg in trace_cfgs(rnd, inst, env, per, dw, ck.thorough, stalled):
+            fl = f"{cfg.get('dtype', 'float')}{'/reuse' if cfg.get('reuse') else ''}"
+            tflav[fl] = tflav.get(fl, 0) + 1
             t = record_trace(ck, len(traces) + 1, inst, cfg, dw)
             if t is not None:
                 traces.append(t)
     for t in traces[:2]:
-        ck.sample({"trace": t["id"], "cfg": t["cfg"], "events": t["events"][:4]})
-    for i in range(0, len(traces), 400):
-        validate_traces(ck, traces[i:i + 400], tconst)
+        ck.sample({"trace": t["id"], "cfg": t["_cfg"], "events": t["events"][:4]})
+    # batches of <= 400 traces taken with a stride, so that every batch mixes the instances (coupling graphs,
+    # chains with a stage that needs no MDA, ...) and bears every action
+    nb = max(1, -(-len(traces) // 400))
+    for i in range(nb):
+        validate_traces(ck, traces[i::nb], tconst)
     ck.extra["traces"] = len(traces)
     ck.extra["traces_by_alg"] = {a: sum(1 for t in traces if t["cfg"]["alg"] == a)
                                  for a in ("J", "GS", "CJ", "CGS", "SJ", "SGS")}
+    ck.extra["traces_by_flavour"] = tflav
+    wit = ck.extra.get("traces_tested_against_a_partly_zero_first_residual", {})
+    # vacuity of the new dimensions: the zero-reference rule of the per-variable scaling in a first and in a
+    # second execution, integer-typed couplings, re-used output arrays
+    # (the witnesses are counted by TLC along the traces: they are demanded of a run without disagreement - a
+    # trace rejected early cannot bear them)
+    if not ck.violations and (not wit.get("sub/run1") or not wit.get("sub/run2")):
+        raise MachineryError(f"no trace tested the initial_subresidual_norm scaling against a partly zero first residual: {wit}")
+    if not all(ck.extra["traces_by_flavour"].values()):
+        raise MachineryError(f"a flavour of the harness disciplines was not visited: {ck.extra['traces_by_flavour']}")
 
     # (2) every class x acceleration x relaxation x scaling x order x warm start, judged by MDAReport
     plain = [ci for ci, c in enumerate(CLASSES) if c[1] == "root" or c[2] == "MDAGSNewton"]
@@ -499,8 +624,11 @@ def run(ck: Check):
     ck.extra["class_acc_relax_triples"] = len(cover)
     per = max(1, -(-n_runs // len(cases)))
     reports = []
+    rflav = {"float": 0, "float/reuse": 0, "int": 0, "int/reuse": 0}     # configurations driven, per flavour
     for case in cases:
         for conf in sample_confs(rnd, case, per, cover):
+            fl = f"{conf.get('dtype', 'float')}{'/reuse' if conf.get('reuse') else ''}"
+            rflav[fl] = rflav.get(fl, 0) + 1
             rp = run_conf(ck, len(reports) + 1, case[0], conf)
             if rp is not None:
                 reports.append(rp)
@@ -510,6 +638,11 @@ def run(ck: Check):
     for i in range(0, len(reports), 200):
         judge_reports(ck, reports[i:i + 200], tconst)
     ck.extra["reports_judged"] = len(reports)
+    ck.extra["runs_by_flavour"] = rflav
+    if not all(rflav.values()):
+        raise MachineryError(f"a flavour of the harness disciplines was not replayed: {rflav}")
+    if not ck.violations and not any(k.startswith("sub/") for k in ck.extra.get("reports_with_a_partly_zero_first_residual", {})):
+        raise MachineryError("no class x setting run with the initial_subresidual_norm scaling on a stalled start")
 
 
 if __name__ == "__main__":
